@@ -26,8 +26,8 @@ VIEWS = ["gopher", "gopherp", "gopherp_dir", "http", "wap", "gemini", "spartan",
 NATIVE_ABSTRACT = {"gopherp", "gopherp_dir"}
 
 META_DIR = {
-    b"a.txt": b"A\n", b"b.html": worlds.HTML, b"c": {b"x.txt": b"x\n"}, b"a.txt.abstract": b"abstract of a\nline two\n", b"d.txt": b"D\n",
-    b".abstract": b"abstract of the directory\n",
+    b"a.txt": b"A\n", b"b.html": worlds.HTML, b"a.txt.abstract": b"abstract of a\nline two\n", b"d.txt": b"D\n",
+    b".abstract": b"abstract of the directory\n", b"d.txt.abstract": b"", b"b.html.keywords": b"\n", b"c": {b"x.txt": b"x\n", b".abstract": b"\n\n"},
     b".names": b"Path=./a.txt\nName=Alpha File\nNumb=2\nAbstract=from names\n\n"
                b"Name=Local New\nType=1\nPath=/f_dirs\nHost=+\nPort=+\nNumb=1\n\n"
                b"Name=Remote One\nType=0\nPath=/some/sel ector\nHost=remote.example\nPort=7070\n\n"
